@@ -19,12 +19,12 @@ partial def decTy : Sexp → Option Ty
 
 partial def encTy : Ty → Sexp
   | .node l ks =>
-    match l.kind with
-    | .prim => .list [.atom "P", .str l.name]
-    | .poly => .list [.atom "V", .str l.name]
-    | .fpoly => .list (.atom "F" :: .str l.name :: ks.map encTy)
+    match l with
+    | .prim n => .list [.atom "P", .str n]
+    | .poly n => .list [.atom "V", .str n]
+    | .fpoly n => .list (.atom "F" :: .str n :: ks.map encTy)
     | .arrow => .list (.atom "A" :: ks.map encTy)
-    | .generic => .list (.atom "G" :: .str l.name :: ks.map encTy)
+    | .generic n => .list (.atom "G" :: .str n :: ks.map encTy)
     | .sum => .list (.atom "S" :: ks.map encTy)
     | .unknown => .list [.atom "U"]
 
